@@ -147,6 +147,9 @@ def classify_reject(text, mode, rep, pt):
     b = text.encode("utf-8", "surrogatepass")
     off = rep.get("offset", 0)
     err = rep.get("err", "")
+    # a reference quirk: backslash + CRLF as the very end of the text is accepted there (backslash + LF / CR is not)
+    if text.endswith("\\\r\n") and err == "Lexical(Eof)" and off == len(b):
+        return "continuation-before-final-crlf-at-end-of-input-rejected"
     # f-string replacement field holding a triple-quoted string that contains the other quote
     if "FStringError" in err or "StringError" in err or err.startswith("Lexical(Eof") or "UnterminatedString" in err:
         for n, parent, field in pyref.walk(pt):
